@@ -47,12 +47,13 @@ def view_of(load, value, exp):
     """[(id, N, [slice of the subsample table per loaded subsample])] from an implementation outcome."""
     tags = c01.representative_tags(load, value, exp)
     out = []
-    for row in value['rows']:
+    xrows = value.get('xrows')
+    for j, row in enumerate(value['rows']):
         sl = []
         for x in exp['ab']:
             o = 2 if x == 'A' else 4
             sl.append(tags[row[o]:row[o] + row[o + 1]])
-        out.append([row[0], row[1], sl])
+        out.append([row[0], row[1], sl] + ([xrows[j]] if xrows else []))
     return out
 
 
@@ -94,16 +95,24 @@ def gen_loads(ctx):
                 kind, order = 'files', sub
             fl = filters_for(rng, cat, order, cleaned, c01.OPTSETS[opt]['passthrough'])
             flt = fl[(li + ci) % len(fl)] if li % 5 != 4 else None
-            main = c01.make_load(cat, opt, cleaned, ab, kind, order, flt)
+            # further halo columns of different kinds (stored floats, unit-scaled, derived, and - cleaned catalogs - the
+            # main-progenitor columns that the loader replaces by fresh 2-D arrays after the table is allocated)
+            xf = []
+            if not c01.OPTSETS[opt]['passthrough'] and (li + ci) % 2 == 0:
+                xf = ['x_L2com', 'r100_L2com', 'sigmavMid_L2com', 'SO_central_particle']
+                if cleaned:
+                    xf += ['N_mainprog', 'vcirc_max_L2com_mainprog', 'sigmav3d_L2com_mainprog', 'is_merged_to']
+                xf = rng.sample(xf, rng.randint(2, len(xf)))
+            main = c01.make_load(cat, opt, cleaned, ab, kind, order, flt, extra_fields=xf)
             loads.append(main)
             meta.append({'role': 'main'})
             j = len(loads) - 1
             if flt is not None and (li % 2 == 0 or not quick):        # companion: the unfiltered load
-                loads.append(c01.make_load(cat, opt, cleaned, ab, kind, order, None))
+                loads.append(c01.make_load(cat, opt, cleaned, ab, kind, order, None, extra_fields=xf))
                 meta.append({'role': 'unfiltered', 'of': j})
             if len(order) > 1 and (li % 3 == 1 or not quick):         # companions: each file on its own
                 for k in order:
-                    loads.append(c01.make_load(cat, opt, cleaned, ab, 'file', [k], flt))
+                    loads.append(c01.make_load(cat, opt, cleaned, ab, 'file', [k], flt, extra_fields=xf))
                     meta.append({'role': 'single', 'of': j, 'k': k})
     for ci in range(3 if quick else 10):                               # light-cone layout with a filter
         lc = cs.random_lc_catalog(rng)
